@@ -1,1 +1,339 @@
-import PistacheModel.Model.Parser
+/-
+C01 — HTTP message parsing does not depend on how the bytes are segmented.
+Property statements over the parser model (`Model/Parser.lean`).  Helper lemmas:
+Lemmas/ParserStable.lean (prefix stability of the step parsers), ParserSteps.lean (the three line
+steps are stable), ParserAbsorb.lean (left-over effects of an abandoned attempt are absorbed),
+ParserResume.lean (continuing = re-parsing the longer buffer).
+-/
+import PistacheModel.Lemmas.ParserResume
+
+namespace Pistache.Parser.Props
+open Pistache Pistache.Stream Pistache.Parser
+
+/-- what an observer can see of a delivery: the message only when complete, the status only on error -/
+inductive Obs
+  | done (m : Msg)
+  | err (code : Nat)
+  | waiting
+  | unspec
+  deriving DecidableEq, Repr
+
+def observe : PState × Outcome → Obs
+  | (p, .done) => .done p.msg
+  | (_, .err c) => .err c
+  | (_, .again) => .waiting
+  | (_, .unspec) => .unspec
+
+/-- the whole byte string delivered in one read -/
+def single (p : PState) (w : Bytes) : PState × Outcome := run p [w]
+
+theorem parse_total (p : PState) : (parse p).1.total = p.total ∧ (parse p).1.max = p.max := by
+  have hl : ∀ (q : PState) (s : P Unit) (q1 : PState) (o : Option Outcome), runLine q s = (q1, o) →
+      q1.total = q.total ∧ q1.max = q.max := by
+    intro q s q1 o h
+    unfold runLine at h
+    cases hs : s q.unread with
+    | mk t o' =>
+      rw [hs] at h
+      cases o' with
+      | ok a r => cases a; simp only [Prod.mk.injEq] at h; obtain ⟨rfl, _⟩ := h; exact ⟨rfl, rfl⟩
+      | again => simp only [Prod.mk.injEq] at h; obtain ⟨rfl, _⟩ := h; exact ⟨rfl, rfl⟩
+      | err c => simp only [Prod.mk.injEq] at h; obtain ⟨rfl, _⟩ := h; exact ⟨rfl, rfl⟩
+      | unspec => simp only [Prod.mk.injEq] at h; obtain ⟨rfl, _⟩ := h; exact ⟨rfl, rfl⟩
+  have h1 : ∀ (q : PState), (stage1 q).1.total = q.total ∧ (stage1 q).1.max = q.max := by
+    intro q
+    unfold stage1
+    split
+    · cases hr : runLine q headers with
+      | mk q1 oo =>
+        have := hl q headers q1 oo hr
+        cases oo with
+        | none => simp only; exact ⟨this.1, this.2⟩
+        | some o => simp only; exact this
+    · exact ⟨rfl, rfl⟩
+  unfold parse
+  split
+  · cases hr : runLine p (firstLine p.kind) with
+    | mk q oo =>
+      have := hl p _ q oo hr
+      cases oo with
+      | none => simp only; have h2 := h1 q; exact ⟨h2.1.trans this.1, h2.2.trans this.2⟩
+      | some o => simp only; exact this
+  · exact h1 p
+
+theorem feed_eq (p : PState) (s : Bytes) (h : p.total + s.length ≤ p.max) : feed p s = some (feedRaw p s) := by
+  unfold feed feedRaw; rw [if_neg (by omega)]
+
+theorem feedRaw_append (p : PState) (a b : Bytes) : feedRaw (feedRaw p a) b = feedRaw p (a ++ b) := by
+  simp [feedRaw, List.append_assoc, Nat.add_assoc]
+
+/-- merging the first two reads changes nothing, provided the first one alone left the parser waiting -/
+theorem run_merge (p : PState) (s1 s2 : Bytes) (rest : List Bytes)
+    (hfit : p.total + s1.length + s2.length ≤ p.max)
+    (hwait : (parse (feedRaw p s1)).2 = .again) :
+    run p (s1 :: s2 :: rest) = run p ((s1 ++ s2) :: rest) := by
+  have hpt := parse_total (feedRaw p s1)
+  rw [run, feed_eq p s1 (by omega)]
+  simp only
+  cases hp : parse (feedRaw p s1) with
+  | mk p2 o =>
+    rw [hp] at hwait hpt
+    simp only at hwait hpt
+    subst hwait
+    simp only
+    have hfit2 : p2.total + s2.length ≤ p2.max := by
+      rw [hpt.1, hpt.2]; simp only [feedRaw]; omega
+    rw [run, feed_eq p2 s2 hfit2]
+    have hres := parse_resume (feedRaw p s1) s2 (by rw [hp])
+    rw [hp] at hres
+    simp only at hres ⊢
+    rw [hres, feedRaw_append]
+    conv => rhs; rw [run, feed_eq p (s1 ++ s2) (by simp only [List.length_append]; omega)]
+
+/-- T1 (segmentation independence, the central theorem): for EVERY byte string and EVERY way of
+    cutting it into reads — as long as it fits the size limit and no earlier read boundary already
+    completed or failed the message — feeding the reads one by one ends in exactly the same parser
+    state and outcome as delivering the whole string in one read. -/
+theorem seg_independent_aux : ∀ (n : Nat) (segs : List Bytes) (p : PState), segs.length = n →
+    p.total + segs.flatten.length ≤ p.max →
+    (∀ k, 0 < k → k < segs.length → (parse (feedRaw p (segs.take k).flatten)).2 = .again) →
+    segs ≠ [] →
+    run p segs = single p segs.flatten := by
+  intro n
+  induction n with
+  | zero => intro segs p hl _ _ hne; exact absurd (List.length_eq_zero_iff.mp hl) hne
+  | succ n ih =>
+    intro segs p hl hfit hprev _
+    match segs, hl with
+    | [s1], _ => simp [single]
+    | s1 :: s2 :: rest2, hl =>
+      have hw := hprev 1 (by omega) (by simp)
+      simp only [List.take_succ_cons, List.take_zero, List.flatten_cons, List.flatten_nil, List.append_nil] at hw
+      have hfit' := hfit
+      simp only [List.flatten_cons, List.length_append] at hfit'
+      rw [run_merge p s1 s2 rest2 (by omega) hw]
+      have hflat : ((s1 ++ s2) :: rest2).flatten = (s1 :: s2 :: rest2).flatten := by simp [List.append_assoc]
+      rw [ih ((s1 ++ s2) :: rest2) p (by simp only [List.length_cons] at hl ⊢; omega) (by rw [hflat]; exact hfit) ?_ (by simp), hflat]
+      intro k hk0 hk
+      have := hprev (k + 1) (by omega) (by simp only [List.length_cons] at hk ⊢; omega)
+      have htake : (((s1 ++ s2) :: rest2).take k).flatten = ((s1 :: s2 :: rest2).take (k + 1)).flatten := by
+        cases k with
+        | zero => omega
+        | succ k' => simp [List.take_succ_cons, List.append_assoc]
+      rw [htake]; exact this
+
+theorem seg_independent (segs : List Bytes) (p : PState)
+    (hfit : p.total + segs.flatten.length ≤ p.max)
+    (hprev : ∀ k, 0 < k → k < segs.length → (parse (feedRaw p (segs.take k).flatten)).2 = .again)
+    (hne : segs ≠ []) :
+    run p segs = single p segs.flatten :=
+  seg_independent_aux segs.length segs p rfl hfit hprev hne
+
+
+/-! ### finality: a completed or failed prefix decides every extension -/
+
+theorem bstep_final (st : BSt) (c : Nat) (h : outcomeOf st.mode ≠ .again) : bstep st c = st := by
+  unfold bstep
+  cases hm : st.mode <;> simp_all [outcomeOf]
+
+theorem bodyFeed_final (st : BSt) (s : Bytes) (h : outcomeOf st.mode ≠ .again) : bodyFeed st s = st := by
+  induction s with
+  | nil => rfl
+  | cons c r ih => simp only [bodyFeed, List.foldl_cons] at ih ⊢; rw [bstep_final st c h]; exact ih
+
+theorem runBody_final (q : PState) (e : Bytes) (h : (runBody q).2 ≠ .again) :
+    (runBody (feedRaw q e)).2 = (runBody q).2 ∧ (runBody (feedRaw q e)).1.msg = (runBody q).1.msg := by
+  simp only [runBody, feedRaw, bodyFeed_append] at h ⊢
+  rw [bodyFeed_final _ e h]
+  exact ⟨rfl, rfl⟩
+
+theorem runLine_final (q : PState) (p : P Unit) (hp : Stable p) (e : Bytes) (q1 : PState) (o : Outcome)
+    (h : runLine q p = (q1, some o)) (hne : o ≠ .again) :
+    ∃ q2, runLine (feedRaw q e) p = (q2, some o) ∧ q2.msg = q1.msg := by
+  unfold runLine at h ⊢
+  cases hs : p q.unread with
+  | mk t o' =>
+    rw [hs] at h
+    cases o' with
+    | ok a r => cases a; simp at h
+    | again => simp only [Prod.mk.injEq, Option.some.injEq] at h; exact absurd h.2.symm hne
+    | err c =>
+      simp only [Prod.mk.injEq, Option.some.injEq] at h; obtain ⟨rfl, rfl⟩ := h
+      have := hp.err q.unread e t c hs
+      simp only [feedRaw, this]; exact ⟨_, rfl, rfl⟩
+    | unspec =>
+      simp only [Prod.mk.injEq, Option.some.injEq] at h; obtain ⟨rfl, rfl⟩ := h
+      have := hp.unspec q.unread e t hs
+      simp only [feedRaw, this]; exact ⟨_, rfl, rfl⟩
+
+theorem stage1_final (q : PState) (e : Bytes) (h : (stage1 q).2 ≠ .again) :
+    (stage1 (feedRaw q e)).2 = (stage1 q).2 ∧ (stage1 (feedRaw q e)).1.msg = (stage1 q).1.msg := by
+  unfold stage1 at h ⊢
+  by_cases hs : q.step = 1
+  · have hs' : (feedRaw q e).step = 1 := hs
+    rw [if_pos hs] at h ⊢; rw [if_pos hs']
+    cases hr : runLine q headers with
+    | mk q1 oo =>
+      rw [hr] at h
+      cases oo with
+      | none =>
+        simp only at h ⊢
+        rw [runLine_ok q headers stable_headers e q1 hr]
+        exact runBody_final q1 e h
+      | some o =>
+        simp only at h ⊢
+        obtain ⟨q2, h2, hm⟩ := runLine_final q headers stable_headers e q1 o hr h
+        rw [h2]; exact ⟨rfl, hm⟩
+  · have hs' : ¬ (feedRaw q e).step = 1 := hs
+    rw [if_neg hs] at h ⊢; rw [if_neg hs']
+    exact runBody_final q e h
+
+/-- FINALITY: once a prefix of the input has completed or failed the message, no further bytes change
+    the outcome or the message. -/
+theorem parse_final (p : PState) (e : Bytes) (h : (parse p).2 ≠ .again) :
+    (parse (feedRaw p e)).2 = (parse p).2 ∧ (parse (feedRaw p e)).1.msg = (parse p).1.msg := by
+  unfold parse at h ⊢
+  by_cases hs : p.step = 0
+  · have hs' : (feedRaw p e).step = 0 := hs
+    have hk : (feedRaw p e).kind = p.kind := rfl
+    rw [if_pos hs] at h ⊢; rw [if_pos hs', hk]
+    cases hr : runLine p (firstLine p.kind) with
+    | mk q oo =>
+      rw [hr] at h
+      cases oo with
+      | none =>
+        simp only at h ⊢
+        rw [runLine_ok p _ (stable_firstLine _) e q hr]
+        exact stage1_final q e h
+      | some o =>
+        simp only at h ⊢
+        obtain ⟨q2, h2, hm⟩ := runLine_final p _ (stable_firstLine _) e q o hr h
+        rw [h2]; exact ⟨rfl, hm⟩
+  · have hs' : ¬ (feedRaw p e).step = 0 := hs
+    rw [if_neg hs] at h ⊢; rw [if_neg hs']
+    exact stage1_final p e h
+
+theorem observe_final (p : PState) (e : Bytes) (h : (parse p).2 ≠ .again) :
+    observe (parse (feedRaw p e)) = observe (parse p) := by
+  obtain ⟨h1, h2⟩ := parse_final p e h
+  cases hp : parse p with
+  | mk q o =>
+    cases hq : parse (feedRaw p e) with
+    | mk q' o' =>
+      rw [hp] at h1 h2; rw [hq] at h1 h2
+      simp only at h1 h2
+      subst h1
+      cases o' <;> simp [observe, h2]
+
+
+theorem run_single (p : PState) (w : Bytes) (h : p.total + w.length ≤ p.max) :
+    run p [w] = (match parse (feedRaw p w) with | (p2, .again) => (p2, .again) | r => r) := by
+  rw [run, feed_eq p w h]
+  simp only
+  cases hp : parse (feedRaw p w) with
+  | mk p2 o => cases o <;> simp [run]
+
+theorem observe_run_single (p : PState) (w : Bytes) (h : p.total + w.length ≤ p.max) :
+    observe (run p [w]) = observe (parse (feedRaw p w)) := by
+  rw [run_single p w h]
+  cases hp : parse (feedRaw p w) with
+  | mk p2 o => cases o <;> rfl
+
+theorem run_stops (p : PState) (s1 : Bytes) (rest : List Bytes) (h : p.total + s1.length ≤ p.max)
+    (hne : (parse (feedRaw p s1)).2 ≠ .again) : run p (s1 :: rest) = parse (feedRaw p s1) := by
+  rw [run, feed_eq p s1 h]
+  simp only
+  cases hp : parse (feedRaw p s1) with
+  | mk p2 o => rw [hp] at hne; cases o <;> simp_all
+
+/-- T2 (the property, full strength): for EVERY byte string, EVERY cut into reads and every starting
+    state, what the observer sees — the complete parsed message (method/status, target, query,
+    version, typed and raw headers, cookies, body), or the error status, or "still waiting" — is the
+    same as when the whole string arrives in one read.  No minimality or well-formedness hypothesis:
+    malformed input is answered with the same status whatever the segmentation. -/
+theorem observation_independent : ∀ (n : Nat) (segs : List Bytes) (p : PState), segs.length = n →
+    p.total + segs.flatten.length ≤ p.max → segs ≠ [] →
+    observe (run p segs) = observe (single p segs.flatten) := by
+  intro n
+  induction n with
+  | zero => intro segs p hl _ hne; exact absurd (List.length_eq_zero_iff.mp hl) hne
+  | succ n ih =>
+    intro segs p hl hfit _
+    match segs, hl with
+    | [s1], _ => simp [single]
+    | s1 :: s2 :: rest2, hl =>
+      have hfit' := hfit
+      simp only [List.flatten_cons, List.length_append] at hfit'
+      have hflat : ((s1 ++ s2) :: rest2).flatten = (s1 :: s2 :: rest2).flatten := by simp [List.append_assoc]
+      by_cases hw : (parse (feedRaw p s1)).2 = .again
+      · rw [run_merge p s1 s2 rest2 (by omega) hw]
+        rw [ih ((s1 ++ s2) :: rest2) p (by simp only [List.length_cons] at hl ⊢; omega) (by rw [hflat]; exact hfit) (by simp), hflat]
+      · rw [run_stops p s1 _ (by omega) hw]
+        unfold single
+        rw [observe_run_single p _ hfit]
+        have : (s1 :: s2 :: rest2).flatten = s1 ++ (s2 :: rest2).flatten := by simp
+        rw [this, ← feedRaw_append]
+        exact (observe_final (feedRaw p s1) _ hw).symm
+
+/-- a string none of whose proper prefixes completes or fails the message -/
+def Minimal (p : PState) (w : Bytes) : Prop :=
+  ∀ k, 0 < k → k < w.length → (parse (feedRaw p (w.take k))).2 = .again
+
+/-- T3: completion exactly at the last byte: if the whole string completes the message and no
+    proper prefix does, then under any cut into non-empty reads the parser is still waiting after
+    every read but the last. -/
+theorem waits_until_last_byte (segs : List Bytes) (p : PState) (w : Bytes)
+    (hflat : segs.flatten = w) (hne : ∀ s ∈ segs, s ≠ []) (hmin : Minimal p w)
+    (hfit : p.total + w.length ≤ p.max) (j : Nat) (hj0 : 0 < j) (hj : j < segs.length) :
+    observe (run p (segs.take j)) = .waiting := by
+  have hpre : (segs.take j).flatten = w.take (segs.take j).flatten.length := by
+    have hw : w = (segs.take j).flatten ++ (segs.drop j).flatten := by
+      rw [← hflat, ← List.flatten_append, List.take_append_drop]
+    rw [hw, List.take_left]
+  have hlen_lt : (segs.take j).flatten.length < w.length := by
+    have hsplit : segs = segs.take j ++ segs.drop j := (List.take_append_drop j segs).symm
+    have hd : segs.drop j ≠ [] := by
+      intro h
+      have hl : (segs.drop j).length = segs.length - j := List.length_drop
+      rw [h] at hl; simp only [List.length_nil] at hl; omega
+    obtain ⟨x, xs, hx⟩ : ∃ x xs, segs.drop j = x :: xs := by
+      cases hh : segs.drop j with | nil => exact absurd hh hd | cons a b => exact ⟨a, b, rfl⟩
+    have hxne : x ≠ [] := hne x (by rw [hsplit, hx]; simp)
+    have hxl : 0 < x.length := List.length_pos_iff.mpr hxne
+    rw [← hflat]
+    conv => rhs; rw [hsplit, List.flatten_append, hx]
+    simp only [List.flatten_cons, List.length_append]; omega
+  have hlen_pos : 0 < (segs.take j).flatten.length := by
+    obtain ⟨x, xs, hx⟩ : ∃ x xs, segs.take j = x :: xs := by
+      cases hh : segs.take j with
+      | nil =>
+        have hl : (segs.take j).length = min j segs.length := List.length_take
+        rw [hh] at hl; simp only [List.length_nil] at hl; omega
+      | cons a b => exact ⟨a, b, rfl⟩
+    have hxm : x ∈ segs := List.mem_of_mem_take (by rw [hx]; simp)
+    have hxl : 0 < x.length := List.length_pos_iff.mpr (hne x hxm)
+    rw [hx]; simp only [List.flatten_cons, List.length_append]; omega
+  have hfitj : p.total + (segs.take j).flatten.length ≤ p.max := by omega
+  have htne : segs.take j ≠ [] := by
+    intro h
+    have hl : (segs.take j).length = min j segs.length := List.length_take
+    rw [h] at hl; simp only [List.length_nil] at hl; omega
+  rw [observation_independent _ (segs.take j) p rfl hfitj htne]
+  unfold single
+  rw [observe_run_single p _ hfitj, hpre]
+  have := hmin _ hlen_pos hlen_lt
+  cases hp : parse (feedRaw p (List.take (segs.take j).flatten.length w)) with
+  | mk q o => rw [hp] at this; simp only at this; subst this; rfl
+
+/-! ### Non-vacuity (tests on concrete messages; the hypotheses are satisfiable and the model computes) -/
+
+def demo : Bytes := bytes "POST /a?b=c HTTP/1.1\r\nHost: x\r\nTransfer-Encoding: chunked\r\n\r\n5\r\nhello\r\n0\r\n\r\n"
+
+example : (run (init .request 4096) [demo]).2 = .done := by decide +kernel
+example : (run (init .request 4096) [demo.take 60, (demo.drop 60).take 3, demo.drop 63]).2 = .done := by decide +kernel
+example : (run (init .request 4096) [demo.take 60, (demo.drop 60).take 3]).2 = .again := by decide +kernel
+example : (run (init .request 4096) [demo]).1.msg.body = bytes "hello" := by decide +kernel
+example : (run (init .response 4096) [bytes "HTT", bytes "P/1.1 200 OK\r\n\r\n"]).2 = .done := by decide +kernel
+example : (run (init .request 16) [demo]).2 = .err 413 := by decide +kernel
+
+end Pistache.Parser.Props
